@@ -119,7 +119,9 @@ impl TryFrom<&Value> for Number {
 
 impl Hash for Number {
     fn hash<H: std::hash::Hasher>(&self, state: &mut H) {
-        self.value.to_bits().hash(state);
+        // +0.0 and -0.0 are equal, so they must hash the same
+        let value = if self.value == 0.0 { 0.0 } else { self.value };
+        value.to_bits().hash(state);
         self.unit.hash(state);
     }
 }
